@@ -131,17 +131,24 @@ def gen_history(rng, kind):
     return hist
 
 
-def run_history(kind, hist, mutate_at=None, mutate_which=None, reads=()):
+def run_history(kind, hist, mutate_at=None, mutate_which=None, reads=(), readonly_views=False):
     """returns (final read-outs, list of (arg changed?, aliases?) per step)"""
     acc = make(kind)
-    args = [h.copy() if isinstance(h, np.ndarray) else h for h in hist]
+    bases = [h.copy() if isinstance(h, np.ndarray) else h for h in hist]
+    args = list(bases)
+    if readonly_views:
+        # the caller hands over READ-ONLY views of buffers it goes on writing to (a frame grabber's ring buffer exposed read-only)
+        for j, b in enumerate(bases):
+            if isinstance(b, np.ndarray):
+                args[j] = b.view()
+                args[j].setflags(write=False)
     facts = []
     for i, a in enumerate(args):
         # what the caller can see of its own array: content, shape, dtype, memory layout, writeability
         sig = lambda x: (x.tobytes(), x.shape, x.strides, x.dtype.str, x.flags.writeable) if isinstance(x, np.ndarray) else None   # noqa
         before = [sig(x) for x in args]
         if mutate_at == i and mutate_which is not None and isinstance(args[mutate_which], np.ndarray):
-            args[mutate_which][...] = 1234.5          # the caller overwrites an earlier argument in place
+            bases[mutate_which][...] = 1234.5         # the caller overwrites an earlier argument in place (through its own writable buffer)
             before = [sig(x) for x in args]
         if i in reads:
             for _ in range(reads.count(i)):
@@ -190,7 +197,11 @@ def check(ctx):
             sig = 'minmax-aliases-first-observation' if kind in ('min', 'max') else 'argument-aliased:' + kind
             ctx.fail(sig, '%s keeps a reference into the caller\'s argument(s) %s' % (kind, alias), case)
         if mutate_at is not None:
-            mut, _, _ = run_history(kind, hist, mutate_at, mutate_which)
+            ro = rng.random() < 0.4
+            if ro:
+                ctx.count('readonly_views_of_writable_buffers')
+                case = dict(case, arguments_are_readonly_views=True)
+            mut, _, _ = run_history(kind, hist, mutate_at, mutate_which, readonly_views=ro)
             # the twin differs only by the caller's later in-place write to an argument already consumed
             if mut != base:
                 keys = [k for k in base if base[k] != mut.get(k)]
@@ -225,12 +236,16 @@ def check(ctx):
             metas.append((case, bool(changed), bool(alias)))
     # merges never change or alias the accumulator merged in
     for _ in range(ctx.scale(80, 800)):
-        kind = rng.choice(['min', 'max', 'mean', 'var', 'cov'])
+        kind = rng.choice(['min', 'max', 'mean', 'var', 'cov', 'cachemax', 'cacheacc'])
         h1, h2 = gen_history(rng, kind), gen_history(rng, kind)
         if rng.random() < 0.3:
             h2 = h2[:1]             # an operand that has seen exactly one observation
-        shape = np.shape(h1[0])
-        h2 = [np.reshape(np.resize(np.asarray(x, dtype=float), int(np.prod(shape)) if shape else 1), shape) if shape else float(np.ravel(x)[0]) for x in h2]
+        if kind in OBJECT_KINDS:
+            if rng.random() < 0.5:
+                h1 = h1[:2]         # a receiver that holds less than the accumulator merged into it
+        else:
+            shape = np.shape(h1[0])
+            h2 = [np.reshape(np.resize(np.asarray(x, dtype=float), int(np.prod(shape)) if shape else 1), shape) if shape else float(np.ravel(x)[0]) for x in h2]
         if kind == 'cov':
             h2 = [np.asarray(x, dtype=float).reshape(2) for x in h2]
         a = run_history(kind, h1)[2]
@@ -238,7 +253,7 @@ def check(ctx):
         sb = readouts(kind, b)
         ib = [x.tobytes() for x in internals(b)]
         a.accumulate(b)
-        case = dict(kind=kind, merge=True, a=[np.asarray(x).tolist() for x in h1], b=[np.asarray(x).tolist() for x in h2])
+        case = dict(kind=kind, merge=True, a=[np.asarray(x).tolist() if kind not in OBJECT_KINDS else list(x) for x in h1], b=[np.asarray(x).tolist() if kind not in OBJECT_KINDS else list(x) for x in h2])
         ctx.case(('merge', kind, case['a'], case['b']), True)
         ctx.count('merge:' + kind)
         if readouts(kind, b) != sb or [x.tobytes() for x in internals(b)] != ib:
